@@ -40,6 +40,16 @@ TRUSTED = [
     "TEExceptionField, NameValuesSerializer, DictAdapter / MultiDictAdapter, StringEnumAdapter, DateAdapter, BitmapAdapter, "
     "AttachmentStateAdapter, Color4 with inversion, ExprAdapter, NumPy adapters, BinaryLLSD, ForwardSerializable recursion, "
     "lazy TypedBytes over context-dependent specs (lazy proxies are forced by the harness), FHReader",
+    "mapping-valued values (Template / Dataclass / BitfieldDataclass dict forms, BitField and FlagSwitch dicts): the model value is an "
+    "association list that is only ever looked up (Spec/SpecOrder.v: ser is invariant under permutation of a duplicate-free dict, "
+    "C08_order_*), the adapter c08_specs.to_sx canonicalises the real dicts to declaration order; every such domain value is also "
+    "handed to the real writers in reversed / shuffled insertion order, with FlagSwitch keys as flag members, member names or mixed and "
+    "dataclass values as instance or plain dict (c08_gen.reorder; descriptor `order` in a replay case), tuples / lists keep their "
+    "order.  DictAdapter / MultiDictAdapter are order-carrying by definition and not modelled",
+    "statefulness: spec objects are assumed to carry no state that matters between uses; this is probed, not proved - one pool of "
+    "spec OBJECTS is reused across {<,>} x {pod, non-pod} in shuffled orders (write twice, read twice, in-place modification of a "
+    "decoded value, phase 2 = phase 1), and a violation that needs earlier uses carries them as `history` (replayed on a freshly "
+    "built object; registered objects cannot be rebuilt)",
     "type-confused inputs (a value of the wrong Python type for its spec) are outside the correspondence; a negative length prefix "
     "read through a signed ByteArray/TypedByteArray makes the real reader seek backwards - the model returns None and such cases "
     "are counted as skipped ('neg-length'); decoder runs exceeding the read budget (greedy loop over an entry that consumes "
@@ -377,7 +387,10 @@ def _engine_result(ctx):
              "value violating a single length/range limit; each in {<,>} x {pod, non-pod}.  Compared: serialized bytes or error, calc_size, "
              "static classification (wf/delimited/min_size), domain membership (model domb accepts every generated domain value of a wf "
              "spec and rejects every violating value), decoded value + bytes left on: the exact encoding, encoding + trailing bytes, "
-             "truncated / bit-flipped / random bytes.  The impl-level oracle checks the property clauses on the real classes for every "
+             "truncated / bit-flipped / random bytes.  A mapping-heavy stream (FlagSwitch with >= 2 choices, Templates, Dataclasses, "
+             "BitFields, nested) is added, and every domain value containing a dict is ALSO written with its dicts in reversed / shuffled "
+             "insertion order and other key forms (oracle on the real classes + model `ser` on the permuted term).  The impl-level oracle "
+             "checks the property clauses on the real classes for every "
              "wf spec.  non-trivial = distinct (spec, e, mode, value-or-bytes) evaluation on a composite spec (tree size > 1)"
              % ctx.pick(3, 5))
 
@@ -415,7 +428,10 @@ def generate(ctx):
 
 
 def correspond(ctx):
+    import time
+    t0 = time.time()
     r1 = _run_suite(ctx, _engine_result(ctx), spec_stream(ctx), True)
+    t1 = time.time()
     trees, skipped = _registry(ctx)
     r2 = CorrResult(
         suite="registered spec trees: the live SUBFIELD_SERIALIZERS registry and templates.py module-level specs vs the model",
@@ -430,7 +446,9 @@ def correspond(ctx):
     r2.distribution.update({"registry:trees-found": len(trees) + len(skipped), "registry:translated": len(trees),
                             "registry:inside-proved-fragment(wf)": inside, "registry:translated-but-not-wf": len(trees) - inside,
                             "registry:not-translated": len(skipped)})
+    t2 = time.time()
     r3 = _run_state_suite(ctx)
+    ctx.notes.append("suite wall times: engine %.1fs, registry %.1fs, order sweep + statefulness %.1fs" % (t1 - t0, t2 - t1, time.time() - t2))
     return [r1, r2, r3]
 
 
@@ -761,7 +779,7 @@ def _run_state_suite(ctx):
              "choices, every permutation of the insertion order of 2- and 3-key dicts (other dicts reversed) x key forms {as generated, "
              "all member names, all flag members, mixed} x {instance, dict form} x {<,>} x {pod, non-pod}: oracle on the real classes + "
              "model `ser` on the permuted term.  (b) a pool of spec OBJECTS (the fixed trees, mapping-heavy trees, random trees, "
-             "TypedBytes wrappers, a sample of the live registered objects) is built ONCE; every object is used with 2 values in each of "
+             "TypedBytes wrappers, every translated live registered object) is built ONCE; every object is used with 2 values in each of "
              "{<,>} x {pod, non-pod}: phase 1 all uses of all objects in one globally shuffled order, phase 2 object by object with the "
              "uses of each object in a fresh random order.  At every use: the property clauses (round trip, framing, size, composition "
              "with trailing bytes) on the reused object, write twice = same bytes, read twice = equal values, in-place modification of "
@@ -824,11 +842,11 @@ def _run_state_suite(ctx):
 
     # ---- (b) statefulness: one pool of objects, reused
     pool = [n for _, n in fixed]
-    for _ in range(ctx.pick(50, 600)):
+    for _ in range(ctx.pick(150, 600)):
         pool.append(G.gen_dicty(rng, rng.choice((1, 2, 2, 3)), need_delim=rng.random() < 0.3))
-    for _ in range(ctx.pick(120, 2500)):
+    for _ in range(ctx.pick(400, 2500)):
         pool.append(G.gen_spec(rng, rng.choice((1, 2, 2, 3)), need_delim=rng.random() < 0.3))
-    for _ in range(ctx.pick(50, 600)):
+    for _ in range(ctx.pick(150, 600)):
         inner = G.gen_spec(rng, rng.choice((1, 2)), need_delim=False)
         tk = rng.choice((("array", False, 1), ("array", False, 2), ("greedy",), ("term", (0,), False)))
         fs = G.fixed_size(inner)
@@ -837,7 +855,7 @@ def _run_state_suite(ctx):
         pool.append(S.Node("typed", (tk, False, True), [inner]))
     reg = [n for _, n in registry_stream(ctx)]
     rng.shuffle(reg)
-    pool += reg[:ctx.pick(60, len(reg))]
+    pool += reg          # every translated registered object
     uses, per_obj = [], []
     seen_sx = set()
     for node in pool:
